@@ -44,6 +44,10 @@ func init() {
 			kvLookupCoversAllTables(r)
 			c09ExplicitExpiryWins(r)
 			customConfigOverrides(r)
+			c09SubMillisecondKept(r)
+			c09IncrByFloatKeepsExpiry(r)
+			c09ScanSkipsExpired(r)
+			c10TTLUpdateDoesNotEvict(r)
 			optionGroups(r)
 			c03PreviousOwners(r)
 			c09SanitizeKeepsVersions(r)
